@@ -320,6 +320,31 @@ def gen_order_cases(rng, tier):
         calls.append(("PSET", f, a))
     calls += pts_for(rng, proto, 1) + [("PFIN",), ("PDROP",), ("SCM", "coord meta"), ("SCR", (0x41d0000000000000, 1))] + F
     cases.append(("order:all-setters", calls))
+    # a REJECTED finalize of a sub-writer is a no-op (C10_err_is_noop): incomplete limits set by the caller ->
+    # points that leave partial bytes in the bit-packed streams -> finalize (Err), once or twice -> limits
+    # repaired (complete, or None) -> more points -> finalize (Ok).  Every point must read back; device
+    # bytes equal the model's.  Record widths that are not a multiple of 8 bits.
+    for w in (1, 3, 7, 11, 13, 33):
+        ty = "I/0/%d" % ((1 << w) - 1)
+        for variant in ("intensity", "colour"):
+            if variant == "intensity":
+                proto = xyz + [("in", ty)]
+                field, bad_lims, good_lims = "ilim", ["i0/-", "-/i1"], ["i0/i%d" % ((1 << w) - 1), "-"]
+            else:
+                proto = xyz + [("r", ty), ("g", ty), ("b", "I/0/%d" % ((1 << (w % 7 + 1)) - 1))]
+                field, bad_lims, good_lims = "clim", ["i0/i1/-/i2/i0/i3", "-/i1/i0/i2/i0/-"], ["i0/i1/i0/i2/i0/i3", "-"]
+            for nb, na, twice in ((1, 1, False), (3, 2, True), (5, 5, False), (9, 1, False), (2, 4, True), (7, 3, False)):
+                def pt():
+                    return [ONE, TWO, HALF] + ["i%d" % rng.range(0, wapi.type_range(t)[1]) for _, t in proto[3:]]
+                calls = N + [("PC", "pc", proto), ("PSET", field, rng.choice(bad_lims))] + [("PT", pt()) for _ in range(nb)]
+                calls += [("PFIN",)] * (2 if twice else 1)
+                calls += [("PSET", field, rng.choice(good_lims))] + [("PT", pt()) for _ in range(na)] + [("PFIN",), ("PDROP",)] + F
+                cases.append(("order:rejected-finalize-then-points", calls))
+    # the same for the image writer: finalize without a representation is rejected, then one is added
+    for kinds in ("v", "p", "s", "c", "vp"):
+        body = img_calls(rng, kinds, fin=False, drop=False)
+        calls = N + [body[0], ("IFIN",)] + ([("IFIN",)] if rng.chance(1, 2) else []) + body[1:] + [("IFIN",), ("IDROP",)] + pc(1) + F
+        cases.append(("order:rejected-image-finalize-then-data", calls))
     # random walks over the state machine
     for _ in range(120 if tier == "quick" else 3000):
         calls = [("NEW", rng.choice(["g", "file guid", ""]) if rng.chance(1, 8) else "g")]
